@@ -85,6 +85,7 @@ func C13(p *load.Prog, r *oblig.Run) {
 	r.Rule("R13.c", "all fills of the document's pointer index use the same store operation (they agree on which record wins a duplicated pointer)", 1)
 	c13PointerFills(p, r)
 	r.Rule("R13.b", "every writer of a membership field invalidates every cache derived from that field: it can reach an invalidation, and one is executed whenever the store is", 8)
+	r.Rule("R13.d", "a function that calls a membership writer and resets a cache itself (because the writer cannot) does so on every path after the call", 2)
 	g := cg.New(p, false)
 	explicit, accessors := readOnlyRoots(p, g)
 	r.Extra["read_only_roots_explicit"] = len(explicit)
@@ -301,6 +302,55 @@ func c13Pairing(p *load.Prog, r *oblig.Run, g *cg.Graph) {
 		wn = append(wn, load.FuncName(w))
 	}
 	r.Extra["membership_writers"] = wn
+	calleeInv := func(c string) func(fn *ssa.Function) bool {
+		return func(fn *ssa.Function) bool {
+			if f := fx[fn]; f != nil && f.cacheStores[c] {
+				return true
+			}
+			for rf := range reach(fn) {
+				if f := fx[rf]; f != nil && f.cacheStores[c] {
+					return true
+				}
+			}
+			return false
+		}
+	}
+	directInv := func(c string) func(ins ssa.Instruction) bool {
+		return func(ins ssa.Instruction) bool {
+			// direct invalidation instruction of cache c in w
+			switch x := ins.(type) {
+			case *ssa.Store:
+				if fa, ok := x.Addr.(*ssa.FieldAddr); ok {
+					if ow := su.FieldOwner(fa); ow != nil && cacheOf(ow, su.FieldName(fa)) == c && (isResetValue(x.Val) || guardedByFieldTest(x, fa)) {
+						return true
+					}
+				}
+				if gl, ok := x.Addr.(*ssa.Global); ok && gl == nodeCache && c == "var nodeCache" {
+					return true
+				}
+			case ssa.CallInstruction:
+				cc := x.Common()
+				if su.CalleeIs(cc, "sync", "Delete") || su.CalleeIs(cc, "sync", "Store") {
+					switch a := cc.Args[0].(type) {
+					case *ssa.FieldAddr:
+						if ow := su.FieldOwner(a); ow != nil && cacheOf(ow, su.FieldName(a)) == c {
+							return true
+						}
+					case *ssa.UnOp:
+						if gl, ok := a.X.(*ssa.Global); ok && gl == nodeCache && c == "var nodeCache" && su.CalleeIs(cc, "sync", "Delete") && len(cc.Args) > 1 {
+							if mi, isMI := cc.Args[1].(*ssa.MakeInterface); isMI {
+								if _, isIface := mi.X.Type().Underlying().(*types.Interface); !isIface {
+									return false
+								}
+							}
+							return true
+						}
+					}
+				}
+			}
+			return false
+		}
+	}
 	for _, w := range writers {
 		wr := reach(w)
 		inval := map[string]bool{}
@@ -328,50 +378,7 @@ func c13Pairing(p *load.Prog, r *oblig.Run, g *cg.Graph) {
 			if inval[c] {
 				// must-invalidate at the top level: some invalidation (direct, or a call that can reach one) is executed
 				// whenever the membership store is - it dominates the store or lies on every path from it to a return
-				if why := invalidationOnEveryPath(w, c, func(fn *ssa.Function) bool {
-					if f := fx[fn]; f != nil && f.cacheStores[c] {
-						return true
-					}
-					for rf := range reach(fn) {
-						if f := fx[rf]; f != nil && f.cacheStores[c] {
-							return true
-						}
-					}
-					return false
-				}, func(ins ssa.Instruction) bool {
-					// direct invalidation instruction of cache c in w
-					switch x := ins.(type) {
-					case *ssa.Store:
-						if fa, ok := x.Addr.(*ssa.FieldAddr); ok {
-							if ow := su.FieldOwner(fa); ow != nil && cacheOf(ow, su.FieldName(fa)) == c && (isResetValue(x.Val) || guardedByFieldTest(x, fa)) {
-								return true
-							}
-						}
-						if gl, ok := x.Addr.(*ssa.Global); ok && gl == nodeCache && c == "var nodeCache" {
-							return true
-						}
-					case ssa.CallInstruction:
-						cc := x.Common()
-						if su.CalleeIs(cc, "sync", "Delete") || su.CalleeIs(cc, "sync", "Store") {
-							switch a := cc.Args[0].(type) {
-							case *ssa.FieldAddr:
-								if ow := su.FieldOwner(a); ow != nil && cacheOf(ow, su.FieldName(a)) == c {
-									return true
-								}
-							case *ssa.UnOp:
-								if gl, ok := a.X.(*ssa.Global); ok && gl == nodeCache && c == "var nodeCache" && su.CalleeIs(cc, "sync", "Delete") && len(cc.Args) > 1 {
-									if mi, isMI := cc.Args[1].(*ssa.MakeInterface); isMI {
-										if _, isIface := mi.X.Type().Underlying().(*types.Interface); !isIface {
-											return false
-										}
-									}
-									return true
-								}
-							}
-						}
-					}
-					return false
-				}, func(st *ssa.Store) bool {
+				if why := invalidationOnEveryPath(w, c, calleeInv(c), directInv(c), func(st *ssa.Store) bool {
 					fa, ok := st.Addr.(*ssa.FieldAddr)
 					if !ok {
 						return false
@@ -398,6 +405,80 @@ func c13Pairing(p *load.Prog, r *oblig.Run, g *cg.Graph) {
 			}
 		}
 	}
+	// R13.d: wrappers. A function that calls a membership writer and compensates for what that writer cannot do (it
+	// resets the caches of all individuals / families itself) must do so on every path after the call.
+	isWriter := map[*ssa.Function]bool{}
+	for _, w := range writers {
+		isWriter[w] = true
+	}
+	var wrappers []*ssa.Function
+	for _, fn := range p.Repo {
+		if pkgPathOf(fn) != load.PkgRoot || fn.Synthetic != "" || len(fn.Blocks) == 0 || isWriter[fn] {
+			continue
+		}
+		for _, ci := range su.Calls(fn) {
+			if cal := ci.Common().StaticCallee(); cal != nil && isWriter[cal] {
+				wrappers = append(wrappers, fn)
+				break
+			}
+		}
+	}
+	sort.Slice(wrappers, func(i, j int) bool { return wrappers[i].String() < wrappers[j].String() })
+	nWrap := 0
+	for _, w := range wrappers {
+		for _, c := range cacheNames {
+			// the writer(s) w calls store a field the cache depends on
+			dep := false
+			for _, ci := range su.Calls(w) {
+				if cal := ci.Common().StaticCallee(); cal != nil && isWriter[cal] {
+					for ref := range fx[cal].storeOnParam {
+						if deps[c][ref] {
+							dep = true
+						}
+					}
+				}
+			}
+			if !dep {
+				continue
+			}
+			// w resets the cache of ALL holders itself: a loop whose body calls a pure reset function of c (stores to the
+			// cache, reads no membership) - the pattern of AddIndividual / AddFamily
+			hsW := loopHeaders(w)
+			inv := func(cal *ssa.Function) bool {
+				f := fx[cal]
+				return f != nil && f.cacheStores[c] && len(f.loads) == 0 && len(f.storeOnParam) == 0
+			}
+			has := false
+			for _, ci := range su.Calls(w) {
+				cal := ci.Common().StaticCallee()
+				if cal == nil || isWriter[cal] || cal == w || !inv(cal) {
+					continue
+				}
+				for _, h := range hsW {
+					if loopBlock(ci.Block(), h) {
+						has = true
+					}
+				}
+			}
+			dir := func(ssa.Instruction) bool { return false }
+			if !has {
+				continue
+			}
+			nWrap++
+			key := fmt.Sprintf("%s compensates for %s", load.FuncName(w), c)
+			o := r.Add("R13.d", key, p.Pos(w.Pos()), fmt.Sprintf("%s calls a membership writer and resets the cache %s itself", load.FuncName(w), c))
+			why := invalidationAfter(w, c, func(fn *ssa.Function) bool { return !isWriter[fn] && inv(fn) }, dir, func(*ssa.Store) bool { return false }, func(ci ssa.CallInstruction) bool {
+				cal := ci.Common().StaticCallee()
+				return cal != nil && isWriter[cal]
+			})
+			if why != "" {
+				o.Fail(fmt.Sprintf("%s changes the node membership through a writer that cannot invalidate the cache %s and resets that cache itself, but not on every path (%s): after a call that takes the other path the views read before keep returning the old relations", load.FuncName(w), c, strings.Replace(why, "the store at line", "the call at line", 1)))
+			} else {
+				o.OK("the reset is executed on every path after the writer call")
+			}
+		}
+	}
+	r.Extra["compensating_wrappers"] = nWrap
 }
 
 func isResetValue(v ssa.Value) bool {
@@ -453,8 +534,15 @@ func guardedByFieldTest(st *ssa.Store, fa *ssa.FieldAddr) bool {
 // can reach one) is in a block that dominates the store's block, or lies on
 // every path from the store to a return. Returns "" when that holds.
 func invalidationOnEveryPath(w *ssa.Function, c string, calleeInvalidates func(*ssa.Function) bool, direct func(ssa.Instruction) bool, isMemberStore func(*ssa.Store) bool) string {
+	return invalidationAfter(w, c, calleeInvalidates, direct, isMemberStore, nil)
+}
+
+// invalidationAfter: as invalidationOnEveryPath; mutationCall marks calls that change membership themselves (a
+// wrapper around a writer). An invalidation site inside a loop counts when the loop's header lies on the path (a loop
+// over all holders of the cache that runs zero times has nothing to invalidate).
+func invalidationAfter(w *ssa.Function, c string, calleeInvalidates func(*ssa.Function) bool, direct func(ssa.Instruction) bool, isMemberStore func(*ssa.Store) bool, mutationCall func(ssa.CallInstruction) bool) string {
 	var sites []ssa.Instruction
-	var stores []*ssa.Store
+	var stores []ssa.Instruction
 	for _, b := range w.Blocks {
 		for _, ins := range b.Instrs {
 			if direct(ins) {
@@ -463,6 +551,10 @@ func invalidationOnEveryPath(w *ssa.Function, c string, calleeInvalidates func(*
 			}
 			if ci, ok := ins.(ssa.CallInstruction); ok {
 				if _, isGo := ins.(*ssa.Go); isGo {
+					continue
+				}
+				if mutationCall != nil && mutationCall(ci) {
+					stores = append(stores, ins)
 					continue
 				}
 				if cal := ci.Common().StaticCallee(); cal != nil && cal != w && calleeInvalidates(cal) {
@@ -477,10 +569,23 @@ func invalidationOnEveryPath(w *ssa.Function, c string, calleeInvalidates func(*
 	if len(sites) == 0 {
 		return "" // the invalidation happens in a caller-independent way this rule does not see (dynamic call); the may-rule decided
 	}
+	hs := loopHeaders(w)
 	for _, st := range stores {
 		ok := false
 		for _, site := range sites {
 			sb, tb := site.Block(), st.Block()
+			// the region of the site: its block, and the headers of the loops it sits in
+			region := map[*ssa.BasicBlock]bool{sb: true}
+			if mutationCall != nil {
+				for _, h := range hs {
+					if loopBlock(sb, h) && !loopBlock(tb, h) {
+						region[h] = true
+					}
+				}
+				if len(region) == 1 {
+					continue // for a wrapper only a reset loop over all holders compensates (a constructor's own zeroing does not)
+				}
+			}
 			if _, isDefer := site.(*ssa.Defer); isDefer && sb.Dominates(tb) {
 				ok = true
 				break
@@ -491,14 +596,16 @@ func invalidationOnEveryPath(w *ssa.Function, c string, calleeInvalidates func(*
 			}
 			// post-dominance: no return reachable from the store's block without passing the site's block
 			var changedFlag ssa.Value
-			if ex, isEx := st.Val.(*ssa.Extract); isEx {
-				changedFlag = ex.Tuple
+			if sst, isStore := st.(*ssa.Store); isStore {
+				if ex, isEx := sst.Val.(*ssa.Extract); isEx {
+					changedFlag = ex.Tuple
+				}
 			}
 			escapes := false
 			seen := map[*ssa.BasicBlock]bool{}
 			var walk func(b *ssa.BasicBlock)
 			walk = func(b *ssa.BasicBlock) {
-				if seen[b] || b == sb || escapes {
+				if seen[b] || region[b] || escapes {
 					return
 				}
 				seen[b] = true
